@@ -48,6 +48,7 @@ Definition offender_ok (c : case_t) (e : dv_err) (subject : string) : bool :=
       | None => false
       end
   | MergeMismatch _ => incomparableb (Mof (c_prev c) subject) (Mof (c_cur c) subject)
+  | CidNotFound => false          (* the model's verifier never raises it (attribution is an input) *)
   end.
 
 Definition direct_agrees (c : case_t) : bool :=
